@@ -909,3 +909,183 @@ func genSnapshot(r *rand.Rand, id string, size int, total int) []string {
 	g.add("obs %d", p)
 	return g.lines
 }
+
+// genConcurrent: 2-8 goroutines write to one store at once; the order in which they persist their
+// heads is scripted (oldest first, newest first, or a permutation); then close, reopen, load.
+func genConcurrent(r *rand.Rand, id string, size int, total int) []string {
+	g := &Gen{r: r}
+	p := g.pick(total)
+	kind := []string{"log", "kv", "doc"}[g.pick(3)]
+	g.add("scn %s kind=%s acl=%d peers=%d", id, kind, p, p)
+	rounds := 1 + g.pick(3)
+	for k := 0; k < rounds; k++ {
+		if g.pick(2) == 0 {
+			switch kind {
+			case "log":
+				g.add("add %d %s", p, hx(g.value()))
+			case "kv":
+				g.add("put %d %s %s", p, hx([]byte("k")), hx(g.value()))
+			default:
+				g.add("docput %d %s %s", p, hx([]byte("d")), hx([]byte("v")))
+			}
+		}
+		n := 2 + g.pick(7)
+		order := []string{"lifo", "fifo", "lifo"}[g.pick(3)]
+		if g.pick(3) == 0 {
+			order = joinInts(g.r.Perm(n))
+		}
+		g.add("cwrite %d %d order=%s", p, n, order)
+		g.add("obs %d", p)
+	}
+	g.add("restart %d", p)
+	g.add("obs %d", p)
+	g.add("final17")
+	return g.lines
+}
+
+// genEvents: (a) store events: writes and replications on 2-3 replicas with a bus subscriber that queries
+// the store from inside its handler; (b) the legacy channel API with subscribers of every pace,
+// including stalls longer than the 16-slot buffer, and a drainer held mid-send by the hook.
+func genEvents(r *rand.Rand, id string, size int, total int) []string {
+	g := &Gen{r: r}
+	if g.pick(2) == 0 {
+		peers := g.r.Perm(total)[:2+g.pick(2)]
+		kind := []string{"kv", "log", "doc"}[g.pick(3)]
+		g.add("scn %s kind=%s acl=%s peers=%s", id, kind, joinInts(peers), joinInts(peers))
+		for _, p := range peers {
+			g.add("evwatch %d", p)
+		}
+		steps := 3 + g.pick(size)
+		for i := 0; i < steps; i++ {
+			p := peers[g.pick(len(peers))]
+			if g.pick(100) < 60 {
+				switch kind {
+				case "kv":
+					g.add("put %d %s %s", p, hx([]byte{byte('a' + g.pick(2))}), hx(g.value()))
+				case "log":
+					g.add("add %d %s", p, hx(g.value()))
+				default:
+					g.add("docput %d %s %s", p, hx([]byte{byte('a' + g.pick(2))}), hx([]byte(fmt.Sprintf("v%d", g.pick(50)))))
+				}
+			} else {
+				q := peers[g.pick(len(peers))]
+				if q != p {
+					g.add("sync %d %d", p, q)
+				}
+			}
+			for _, q := range peers {
+				g.add("evflush %d", q)
+			}
+		}
+		return g.lines
+	}
+	g.add("scn %s kind=none acl=* peers=", id)
+	g.add("enew")
+	nsub := 1 + g.pick(2)
+	names := []string{"a", "b"}[:nsub]
+	for _, n := range names {
+		g.add("esub %s", n)
+	}
+	next := 1
+	held := false
+	for i := 0; i < 3+g.pick(size); i++ {
+		switch g.pick(6) {
+		case 0, 1:
+			k := 1 + g.pick(30)
+			g.add("eemit %d %d", next, next+k-1)
+			next += k
+			g.add("pause 2")
+		case 2:
+			if !held && next > 17 {
+				g.add("holdhook emitter.dequeued")
+				held = true
+			}
+		case 3:
+			if held {
+				g.add("releasehook emitter.dequeued")
+				held = false
+			}
+		default:
+			g.add("eread %s %d", names[g.pick(nsub)], 1+g.pick(20))
+		}
+	}
+	if held {
+		g.add("releasehook emitter.dequeued")
+	}
+	g.add("eflush")
+	for _, n := range names {
+		g.add("eread %s %d", n, next+5)
+	}
+	g.add("efinal %d", next-1)
+	for _, n := range names {
+		g.add("ecancel %s", n)
+		g.add("eclosed %s", n)
+	}
+	return g.lines
+}
+
+// genClose: Close (twice) at PRNG-chosen moments — idle, with a replication held mid-fetch, right after
+// concurrent writes — then operations on the closed store, reopen + load, Drop of one of several
+// databases, and a goroutine census once everything is closed.
+func genClose(r *rand.Rand, id string, size int, total int) []string {
+	g := &Gen{r: r}
+	peers := g.r.Perm(total)[:2]
+	p, q := peers[0], peers[1]
+	kind := []string{"kv", "log", "doc"}[g.pick(3)]
+	g.add("scn %s kind=%s acl=%s peers=%s leak=1", id, kind, joinInts(peers), joinInts(peers))
+	write := func(w int) {
+		switch kind {
+		case "kv":
+			g.add("put %d %s %s", w, hx([]byte{byte('a' + g.pick(2))}), hx(g.value()))
+		case "log":
+			g.add("add %d %s", w, hx(g.value()))
+		default:
+			g.add("docput %d %s %s", w, hx([]byte{byte('a' + g.pick(2))}), hx([]byte(fmt.Sprintf("v%d", g.pick(50)))))
+		}
+	}
+	second := g.pick(2) == 0
+	if second {
+		g.add("opendb kind=log acl=%s peers=%s", joinInts(peers), joinInts(peers))
+		g.add("add %d %s", p, hx(g.value()))
+		g.add("usedb 0")
+	}
+	n := 1 + g.pick(size)
+	for i := 0; i < n; i++ {
+		write([]int{p, q}[g.pick(2)])
+	}
+	if g.pick(2) == 0 {
+		g.add("sync %d %d", p, q)
+	}
+	g.add("obs %d", p)
+	switch g.pick(3) {
+	case 0: // idle
+	case 1: // a replication is in flight, held in the middle of a fetch
+		write(q)
+		g.add("hold %d @last", p)
+		g.add("syncasync %d heads=@heads%d", p, q)
+		g.add("waitget %d @last", p)
+	case 2: // right after a burst of concurrent writes
+		g.add("cwrite %d %d order=lifo", p, 2+g.pick(4))
+	}
+	g.add("closestore %d", p)
+	g.add("afterclose %d", p)
+	g.add("restart %d", p)
+	g.add("obs %d", p)
+	g.add("final18 %d", p)
+	if second && g.pick(2) == 0 {
+		g.add("dropstore %d", p)
+		g.add("usedb 1")
+		g.add("obsdb %d 1", p)
+		g.add("usedb 0")
+	} else {
+		g.add("closestore %d", p)
+	}
+	g.add("closestore %d", q)
+	if second {
+		g.add("usedb 1")
+		g.add("closestore %d", p)
+		g.add("closestore %d", q)
+	}
+	g.add("leakcheck")
+	return g.lines
+}
